@@ -211,6 +211,106 @@ def _(tmp):
     edit(tmp, "src/util/overlap_checker.rs", lambda s: rename_in_fn(rename_in_fn(s, "check_and_insert", {"position": "at", "size": "len"}), "check_overlap", {"position": "at", "size": "len", "index": "found"}))
 
 
+
+@case("rename-can-guess-param", ["C03", "C01", "C02", "C15"])
+def _(tmp):
+    edit(tmp, "src/asm/resolver/iter.rs", lambda s: rename_in_fn(rename_in_fn(s, "eval_address", {"can_guess": "may_guess"}), "get_address", {"can_guess": "may_guess"}))
+
+
+@case("rename-iterator-new-params", ["C02", "C09", "C03", "C15"])
+def _(tmp):
+    edit(tmp, "src/asm/resolver/iter.rs", lambda s: rename_in_fn(s, "new", {"is_first_iteration": "first", "is_last_iteration": "last"}))
+
+
+@case("rename-annotated-params", ["C11", "C12", "C18", "C19"])
+def _(tmp):
+    edit(tmp, "src/util/bitvec_format.rs", lambda s: rename_in_fn(rename_in_fn(s, "format_annotated", {"base": "radix_", "digits_per_group": "grp"}), "format_tcgame", {"base": "radix_", "digits_per_group": "grp"}))
+
+
+@case("rename-char-counter-locals", ["C13", "C12"])
+def _(tmp):
+    edit(tmp, "src/util/char_counter.rs", lambda s: rename_in_fn(s, "get_line_column_at_index", {"index": "byte_at", "line": "ln", "column": "col"}))
+
+
+@case("rename-build-output-locals", ["C06", "C12", "C01"])
+def _(tmp):
+    edit(tmp, "src/asm/output/mod.rs", lambda s: rename_in_fn(s, "build_output", {"position": "pos_", "size": "len_", "span": "sp_", "addr": "address"}))
+
+
+@case("rename-resolver-locals", ["C02", "C03"])
+def _(tmp):
+    edit(tmp, "src/asm/resolver/label.rs", lambda s: rename_in_fn(s, "resolve_label", {"prev_value": "before", "value": "now"}))
+    edit(tmp, "src/asm/resolver/res.rs", lambda s: rename_in_fn(s, "resolve_res", {"prev_value": "before", "value": "now"}))
+
+
+@case("rename-matcher-locals", ["C07", "C08", "C01"])
+def _(tmp):
+    edit(tmp, "src/asm/matcher/mod.rs", lambda s: rename_in_fn(rename_in_fn(s, "match_instr", {"matches": "found", "walker": "w"}), "match_with_ruledef_map", {"matches": "found", "entries": "buckets", "prefix": "pfx"}))
+
+
+@case("rename-walker-locals", ["C13", "C07"])
+def _(tmp):
+    edit(tmp, "src/syntax/walker.rs", lambda s: rename_in_fn(s, "find_lookahead_char_index", {"index": "at", "wanted_char": "wanted"}))
+
+
+@case("rename-driver-parse-command", ["C18", "C10", "C09"])
+def _(tmp):
+    edit(tmp, "src/driver.rs", lambda s: rename_in_fn(s, "parse_command", {"parsed": "m", "command": "cmd"}))
+
+
+@case("if-else-instead-of-match", ["C16", "C03"])
+def _(tmp):
+    edit(tmp, "src/asm/mod.rs", lambda s: s.replace("    match had_error\n    {\n        false => Ok(()),\n        true => Err(()),\n    }", "    if had_error\n    {\n        Err(())\n    }\n    else\n    {\n        Ok(())\n    }"))
+
+
+@case("extract-helper-overlap-report", ["C06", "C03", "C13"])
+def _(tmp):
+    def f(s):
+        s = s.replace("""            report.push_parent(
+                "output overlap",
+                span);
+
+            report.note_span(
+                "overlaps with:",
+                overlapping_entry.span);
+
+            report.pop_parent();
+
+            return Err(());""", """            report_overlap(report, span, overlapping_entry.span);
+
+            return Err(());""")
+        s = s.replace("impl OverlapChecker\n{", """fn report_overlap(
+    report: &mut diagn::Report,
+    span: diagn::Span,
+    other: diagn::Span)
+{
+    report.push_parent(
+        "output overlap",
+        span);
+
+    report.note_span(
+        "overlaps with:",
+        other);
+
+    report.pop_parent();
+}
+
+
+impl OverlapChecker\n{""", 1)
+        return s
+    edit(tmp, "src/util/overlap_checker.rs", f)
+
+
+@case("add-debug-println", ["C02", "C09", "C10", "C03"])
+def _(tmp):
+    edit(tmp, "src/asm/resolver/mod.rs", lambda s: s.replace("    let mut iter_count = 0;", "    let mut iter_count = 0;\n\n    if opts.debug_iterations\n    {\n        println!(\"resolving...\");\n    }", 1))
+
+
+@case("reorder-independent-statements", ["C17", "C02"])
+def _(tmp):
+    edit(tmp, "src/asm/resolver/eval_asm.rs", lambda s: s.replace("    let mut result = util::BigInt::new(0, Some(0));\n    let mut cur_position = position_at_start;\n    let mut unstable = false;", "    let mut unstable = false;\n    let mut cur_position = position_at_start;\n    let mut result = util::BigInt::new(0, Some(0));"))
+
+
 def run_case(c):
     name, props, fn = c
     tmp = tempfile.mkdtemp(prefix="casm-neutral-")
